@@ -195,6 +195,24 @@ def handle (line : String) : String :=
       (if sideActs SqlObjVerif.Ddl.Extracted.linkCreateKey a b then "1" else "0") ++ " " ++
         (if sideActs SqlObjVerif.Ddl.Extracted.linkDropKey a b then "1" else "0")
     | _, _, _, _ => "bad-request"
+  | "cat" :: op :: fl :: jn :: rest =>
+    -- cat <create|drop> <if flag> <joins flag> <table> <n links> links… <n tables> tables…
+    let p : P (Str × List Str × List Str) := do
+      let t ← pStr; let ls ← pList pStr; let ts ← pList pStr
+      pure (t, ls, ts)
+    match p.run rest with
+    | some ((t, ls, ts), []) =>
+      let r : Req := ⟨t, ls, []⟩
+      let c : Cat := ⟨ts, []⟩
+      let res :=
+        if op == "drop" then
+          dropTableG SqlObjVerif.Ddl.Extracted.dropPassesIfExists SqlObjVerif.Ddl.Extracted.dropDedupes (fl == "1") (jn == "1") r c
+        else
+          createTableG SqlObjVerif.Ddl.Extracted.createPassesIfNotExists SqlObjVerif.Ddl.Extracted.createDedupes (fl == "1") (jn == "1") r c
+      match res with
+      | .ok c1 => "ok" ++ String.join (c1.tables.map fun x => " " ++ encodeCps x)
+      | .error _ => "err"
+    | _ => "bad-request"
   | ["link", a, b] =>
     match decodeCps? a, decodeCps? b with
     | some a, some b => if createsLink a b then "1" else "0"
